@@ -27,6 +27,20 @@ partition layouts, location lists, slots:
 * `delFromIndex_locs`     ties the list-of-locations view to the Impl model's heap of shared index
                           rows for `deleteRowFromIndexes` (one index, distinct row objects);
 * `keys_kept_delete`, `keys_kept_swap`  the key part of the invariant under both in-place writers.
+* `index_read_eq_scan_read`  corollary of `lookup_eq_scan` for every predicate on the STORED key
+                          values (the range filter of the index scan): the index-driven read keeps
+                          exactly the stored rows whose own key values satisfy it;
+* `extVals_ignores_pfx`   PREFIX INDEXES (`KEY (s(4))`): the storage row holds the full column
+                          values, the declared prefix lengths (`IdxDef.pfx`) do not enter it — so
+                          all theorems above hold verbatim for prefix indexes over string columns;
+* `idxInv_rewrite`        a row overwritten IN PLACE (same slot, e.g. UPDATE / REPLACE / ON DUPLICATE
+                          KEY UPDATE keeping the primary key) with the storage row refreshed unless a
+                          shortcut `same old new` says "key unchanged": the invariant is kept for
+                          every shortcut that implies equal stored key values (`fullMatch_sound`:
+                          `columnsMatch` without prefix lengths does); `prefix_match_is_not_key_equality`
+                          + `prefix_shortcut_breaks_invariant`: `columnsMatch` WITH the index's prefix
+                          lengths does not — the storage row keeps the old value and the equality
+                          lookup for the new value loses the row.
 
 NOT proved (stated, covered by the correspondence and the oracle only): the lifting of these
 per-operation lemmas through the heap-threading `applyEditsP` to `idxInv_reachable : ∀ history,
@@ -536,6 +550,100 @@ theorem delFromIndex_locs (h : Heap) (ids : List Nat) (p i : Nat) (hnd : ids.Nod
   rw [getE_delFold p i ids h hnd hlt id, if_pos hmem]
   rfl
 
+/-! ## Prefix indexes and rows rewritten in place -/
+
+/-- the storage of a prefix index holds the full column values: the declared prefix lengths do not
+enter what `rowToIndexStorage` stores. -/
+theorem extVals_ignores_pfx (env : Env) (d : IdxDef) (p : List Nat) (r : Row) :
+    extVals env { d with pfx := p } r = extVals env d r := rfl
+
+/-- **Index read = scan read**, for every predicate `φ` on the stored key values (the range filter
+the index scan evaluates on the storage row): under the invariant the rows an index-driven read
+resolves and keeps are exactly the stored rows whose own key values satisfy `φ`. -/
+theorem index_read_eq_scan_read (env : Env) (d : IdxDef) (parts : List (List Row)) (E : Entries)
+    (h : IdxInvE env d parts E) (φ : List Val → Bool) :
+    ((E.map (fun e => (e.1, rowAt parts e.2))).filter (fun x => φ x.1)).Perm
+      ((parts.flatten.filter (fun r => φ (extVals env d r))).map (fun r => (extVals env d r, some r))) := by
+  have hp := (lookup_eq_scan env d parts E h).filter (fun x => φ x.1)
+  have hr : (parts.flatten.map (fun r => (extVals env d r, some r))).filter (fun x => φ x.1) =
+      (parts.flatten.filter (fun r => φ (extVals env d r))).map (fun r => (extVals env d r, some r)) := by
+    rw [List.filter_map]; rfl
+  rw [hr] at hp
+  exact hp
+
+/-- The storage rows of one index after the row stored at `l` was overwritten in place by `new`
+(`insertHelper`'s "map semantics" branch made index-aware): the storage row located at `l` gets the
+new row's key values — unless the shortcut `same old new` claims the key did not change. -/
+def rewriteEntries (env : Env) (d : IdxDef) (same : Row → Row → Bool) (old new : Row) (l : Loc) (E : Entries) : Entries :=
+  E.map (fun e => if e.2 = l ∧ same old new = false then (extVals env d new, e.2) else e)
+
+theorem map_snd_rewriteEntries (env : Env) (d : IdxDef) (same : Row → Row → Bool) (old new : Row) (l : Loc) (E : Entries) :
+    (rewriteEntries env d same old new l E).map (·.2) = E.map (·.2) := by
+  simp only [rewriteEntries, List.map_map]
+  apply List.map_congr_left
+  intro e _
+  simp only [Function.comp_apply]
+  split <;> rfl
+
+/-- **In-place rewrite.** Overwriting the row at a live slot and refreshing the storage row located
+there keeps the invariant for EVERY shortcut `same` that is sound for the stored key: whenever it
+answers "unchanged", the full extended key values (`rowToIndexStorage`) of both versions agree. -/
+theorem idxInv_rewrite (env : Env) (d : IdxDef) (parts : List (List Row)) (E : Entries) (l : Loc) (old new : Row)
+    (same : Row → Row → Bool) (hold : rowAt parts l = some old)
+    (hsound : same old new = true → extVals env d old = extVals env d new)
+    (h : IdxInvE env d parts E) :
+    IdxInvE env d (setRow parts l new) (rewriteEntries env d same old new l E) := by
+  have hv : (rowAt parts l).isSome := by simp [hold]
+  refine ⟨?_, ?_⟩
+  · intro l'
+    rw [map_snd_rewriteEntries, h.1 l', rowAt_setRow parts l new hv]
+    by_cases hl : l' = l
+    · subst hl; simp [hold]
+    · simp [hl]
+  · intro e he r hr
+    simp only [rewriteEntries, List.mem_map] at he
+    obtain ⟨e0, he0, rfl⟩ := he
+    by_cases hc : e0.2 = l ∧ same old new = false
+    · simp only [hc, and_self, if_true] at hr ⊢
+      rw [rowAt_setRow parts l new hv] at hr
+      simp at hr
+      rw [hr]
+    · simp only [hc, if_false] at hr ⊢
+      rw [rowAt_setRow parts l new hv] at hr
+      by_cases hl : e0.2 = l
+      · simp only [hl, if_true, Option.some.injEq] at hr
+        have hs : same old new = true := by
+          cases hss : same old new with
+          | true => rfl
+          | false => exact absurd ⟨hl, hss⟩ hc
+        rw [← hr, ← hsound hs]
+        exact h.2 e0 he0 old (by rw [hl]; exact hold)
+      · simp only [hl, if_false] at hr
+        exact h.2 e0 he0 r hr
+
+/-- two rows that agree on a list of columns have the same projection. -/
+theorem map_at_eq_of_columnsMatch (cs : List Nat) (a b : Row) (h : columnsMatch cs [] a b = true) :
+    cs.map (fun c => a.at c) = cs.map (fun c => b.at c) := by
+  induction cs with
+  | nil => rfl
+  | cons c cs ih =>
+    simp only [columnsMatch, colMatch, List.headD_nil, List.tail_nil, Bool.and_eq_true] at h
+    simp only [List.map_cons]
+    have h1 : a.at c = b.at c := by simpa using h.1
+    rw [h1, ih h.2]
+
+/-- the shortcut that compares the FULL values of the extended key columns (`columnsMatch` without
+prefix lengths) is sound. -/
+theorem fullMatch_sound (env : Env) (d : IdxDef) (old new : Row)
+    (h : columnsMatch (extCols env d) [] old new = true) : extVals env d old = extVals env d new :=
+  map_at_eq_of_columnsMatch (extCols env d) old new h
+
+theorem idxInv_rewrite_fullMatch (env : Env) (d : IdxDef) (parts : List (List Row)) (E : Entries) (l : Loc) (old new : Row)
+    (hold : rowAt parts l = some old) (h : IdxInvE env d parts E) :
+    IdxInvE env d (setRow parts l new)
+      (rewriteEntries env d (fun a b => columnsMatch (extCols env d) [] a b) old new l E) :=
+  idxInv_rewrite env d parts E l old new _ hold (fullMatch_sound env d old new) h
+
 end Gms.MemIndex
 
 namespace Gms.C16
@@ -566,7 +674,15 @@ theorem facts_match :
     Generated.C16.pkApplyEdits = ["deleteHelper", "insertHelper", "tableData.sortRows"] ∧
     Generated.C16.klApplyEdits = ["deleteHelper", "insertHelper", "tableData.sortSecondaryIndexes"] ∧
     Generated.C16.pkHelperCalls = ["deleteHelper:deleteRowFromIndexes", "insertHelper:addRowToIndexes"] ∧
-    Generated.C16.klHelperCalls = ["deleteHelper:deleteRowFromIndexes", "insertHelper:addRowToIndexes"] := by
+    Generated.C16.klHelperCalls = ["deleteHelper:deleteRowFromIndexes", "insertHelper:addRowToIndexes"] ∧
+    -- who writes the index storage: exactly the writers the model transliterates (a further writer,
+    -- e.g. one that rewrites storage rows in place, owes `idxInv_rewrite`'s soundness hypothesis)
+    Generated.C16.storageWriters = ["table.go:Table.DropIndex", "table_data.go:TableData.copy", "table_data.go:TableData.truncate",
+      "table_editor.go:addRowToIndexes", "table_editor.go:deleteRowFromIndexes"] ∧
+    -- prefix-truncated comparison serves the unique-key lookups only (it is not equality of stored
+    -- keys: `prefix_match_is_not_key_equality`), and a storage row is built without prefix lengths
+    Generated.C16.prefixCompareUsers = ["keylessTableEditAccumulator.GetByCols:prefixLengths", "pkTableEditAccumulator.GetByCols:prefixLengths"] ∧
+    Generated.C16.storedKeyPrefixRefs = ["none"] := by
   decide
 
 /-! ## The property, per index -/
@@ -661,6 +777,55 @@ theorem overwrite_breaks_invariant :
     let hd := insertHelperP envX (stX.heap, stX.data) [.int 4, .int 3, .int 3]
     (hd.2.idx.map List.length) = [4, 4] ∧ hd.2.parts.flatten.length = 3 := by
   decide
+
+/-! ## Prefix indexes: `KEY (c1(3))` over a string column -/
+
+def envP : Env :=
+  { sch := { cols := [{ nullable := false }, { str := true }], pk := [0], uniques := [] },
+    idxs := [{ cols := [1], pfx := [3] }], nparts := 1, pmap := [([.int 1], 0), ([.int 2], 0)] }
+
+def dP : IdxDef := { cols := [1], pfx := [3] }
+def abcb : Val := .str [97, 98, 99, 98]
+def abcc : Val := .str [97, 98, 99, 99]
+def p1 : Row := [.int 1, .str [97, 98]]
+def p2 : Row := [.int 2, abcb]
+def p2' : Row := [.int 2, abcc]
+
+/-- the prefix comparison the unique-key checks use (`columnsMatch` with the index's prefix
+lengths): "same key" although the stored (full) values differ. -/
+def prefixSame (d : IdxDef) (a b : Row) : Bool := columnsMatch d.cols d.pfx a b
+
+/-- the Impl model on UPDATE … SET c1 = 'abcc' WHERE c0 = 2 (change behind the prefix): delete +
+insert + sort, the storage row carries the new full value; the invariant's key part holds. -/
+example :
+    let st := runHistory envP (initSt envP) [⟨[.ins p1, .ins p2], .eof⟩, ⟨[.upd p2 p2'], .eof⟩]
+    indexView st = specIndexView envP [p1, p2'] := by decide
+
+/-- non-vacuity of `idxInv_rewrite`: a sound shortcut (full comparison) on the same update. -/
+example : columnsMatch (extCols envP dP) [] p2 p2' = false ∧ columnsMatch (extCols envP dP) [] p2 p2 = true := by decide
+
+/-- **`columnsMatch` with prefix lengths is not key equality for the storage**: it answers
+"unchanged" for two rows whose stored key values differ … -/
+theorem prefix_match_is_not_key_equality :
+    prefixSame dP p2 p2' = true ∧ extVals envP dP p2 ≠ extVals envP dP p2' := by decide
+
+/-- … so an in-place rewrite that skips "unchanged" prefix keys breaks the invariant: from a
+consistent index the storage row keeps the old value, `KeysOk` fails, and the equality lookup for
+the new value through the index (`φ` = "stored key = 'abcc'") returns nothing although the row is
+stored (the seeded class: stale entry behind an indexed prefix). -/
+theorem prefix_shortcut_breaks_invariant :
+    let parts : List (List Row) := [[p1, p2]]
+    let E : Entries := [(extVals envP dP p1, ⟨0, 0⟩), (extVals envP dP p2, ⟨0, 1⟩)]
+    let parts' := setRow parts ⟨0, 1⟩ p2'
+    let E' := rewriteEntries envP dP (prefixSame dP) p2 p2' ⟨0, 1⟩ E
+    (E.map (fun e => (e.1, rowAt parts e.2)) = parts.flatten.map (fun r => (extVals envP dP r, some r))) ∧
+    ¬ KeysOk envP dP parts' E' ∧
+    ((E'.map (fun e => (e.1, rowAt parts' e.2))).filter (fun x => x.1.head? == some abcc)) = [] ∧
+    (parts'.flatten.filter (fun r => (extVals envP dP r).head? == some abcc)) = [p2'] := by
+  refine ⟨by decide, ?_, by decide, by decide⟩
+  intro hk
+  have := hk (extVals envP dP p2, ⟨0, 1⟩) (by decide) p2' (by decide)
+  exact absurd this (by decide)
 
 /-! ## DDL: how indexes and their storage are named -/
 
